@@ -128,7 +128,7 @@ def build_kwargs(c, d):
     comp = c["compression"] if c["compression"] in (None, "gz", "zip", "xz") else None
     kw = {"input_format": fmt, "compression_mode": c["compression"], "examples_mode": c["examples"],
           "disable_or_statements": c["or"][0], "allow_redundant_or": c["or"][1], "namespaces_dict": {EX: "ex"}}
-    ext = {"nt": "nt", "tsv_spo": "tsv", "turtle": "ttl", "turtle_iter": "ttl", "n3": "n3", "xml": "xml", "json-ld": "json"}.get(fmt, "nt")
+    ext = {"nt": "nt", "tsv_spo": "tsv", "turtle": "ttl", "turtle_iter": "ttl", "n3": "n3", "xml": "xml", "json-ld": "json"}.get(fmt if isinstance(fmt, str) else "?", "nt")
     for s in c["sources"]:
         if s == "graph_file_input":
             kw[s] = write_file(d, "g." + ext, content(fmt, TRIPLES), comp)
@@ -310,6 +310,9 @@ def near_misses(valid):
         if o not in seen:
             seen.add(o)
             yield o
+    # values of other types (a user combining modes in a list, a number, a flag...): unknown all the same -> ValueError
+    for o in ([valid[0]], [valid[0], valid[-1]], (valid[0],), {valid[0]: True}, {valid[0]}, 0, 7, 1.5, True, False, valid[0].encode()):
+        yield o
 
 
 VALID_TARGETS = [(["target_classes"], False), (["file_target_classes"], False), (["shape_map_file"], False), (["shape_map_raw"], False),
